@@ -265,8 +265,10 @@ def generate(streams: Streams, tier: str, index: int) -> dict:
             opts["method"] = rng.choice(["overlap", "distance"])
     if rng.random() < 0.15:
         # single-precision fields: every path must analyse the very same numbers
+        # (or integer / boolean images: what a worker sees must still be the very same numbers)
+        dt = rng.choice(["float32", "float32", "float32", "uint8", "int64", "bool"])
         for f in frames + (live_field or []):
-            f["dtype"] = "float32"
+            f["dtype"] = dt
     if system == "refine":
         # the candidates may come in any iterable, also a one-shot one
         opts["cands_as"] = rng.choice(["list", "list", "tuple", "generator", "emulsion", "iter"])
